@@ -98,18 +98,22 @@ def main(chk: Check):
         chk.model(cfg, tlc.run("Dual.tla", cfg, workers=4, timeout=600), expect="DualOK", note="named deviation")
     readers = fitness_readers()
     scanned = {o for o in gen.OPTIMIZERS if o in readers}
-    if scanned != gen.READS_FITNESS:
-        chk.machinery.append(f"fitness-reading optimizers by AST scan {sorted(scanned)} differ from the table {sorted(gen.READS_FITNESS)}")
+    # the table of excluded optimizers is part of the property (83 of 84); a class that newly reads fitness is NOT
+    # excluded - it gets more pairs instead, and only an observed divergence is a verdict
+    newly = sorted(scanned - gen.READS_FITNESS)
+    chk.extra["ast_scan_reads_fitness"] = sorted(scanned)
+    if newly:
+        print(f"note: {newly} read Agent.fitness according to the AST scan but are not in the exclusion table; they get extra pairs")
     rng = random.Random(chk.seed)
     specs = []
     per = 40 if thorough else 6
     for opt in gen.OPTIMIZERS:
         if opt in gen.READS_FITNESS:
             continue
-        for _ in range(per):
+        for _ in range(per * (5 if opt in newly else 1)):
             enc = rng.choice(["contmulti", "contmulti", "cont", "multiobj"])
             specs.append({"id": len(specs) + 1, "opt": opt, "desc": gen.task_desc(rng, enc),
-                          "cfg": gen.config_dict(rng, opt, scale=rng.choice([1, 1, 1.5, 2]), max_cycles=rng.choice([2, 3, 4, 6]), stop="cycles", jit=rng.random() < 0.5)})
+                          "cfg": gen.config_dict(rng, opt, scale=rng.choice([1, 1, 1.5, 2]), max_cycles=rng.choice([2, 3, 4, 6]), stop="cycles", jit=(rng.random() < 0.5 or opt in newly))})
     with cf.ProcessPoolExecutor(14) as ex:
         recs = list(ex.map(run_pair, specs, chunksize=8))
     records = [r for r in recs if "skipped" not in r]
